@@ -1,8 +1,7 @@
 (* Response-parser proofs, part 2: the lax chunked payload parser (HttpResp.rchunked_loop /
    rfeed_payload) as an instance of the generic loop of Proofs/HttpSegBase.v: one-step function,
    fuel independence, prefix stability, well-formedness of the state left behind, and the
-   payload-level splitting lemmas.  `unpark c = c` ("clean"): the read did not end right after an
-   optional CR that follows chunk data. *)
+   payload-level splitting lemmas. *)
 From Coq Require Import ZifyBool ZifyN.
 From AV Require Import Lib.Base Lib.BytesX Lib.Utf8Decode Generated.HttpGen Generated.HttpRespGen Model.Http Model.HttpResp
   Proofs.HttpSegBase Proofs.HttpRespBase.
@@ -35,12 +34,12 @@ Definition rstep_c (lim : limits) (mt : N) (s : rcst) (chunk : bytes) : (rcst * 
       let '(d, rest) := takeN rem chunk in
       let left' := rem - lenN d in
       let evs' := rev_data d evs in
-      if left' =? 0 then inl ((RDataEnd false, tl, rev_chunk_end evs'), rest)
+      if left' =? 0 then inl ((RDataEnd, tl, rev_chunk_end evs'), rest)
       else inr (QNeed (mkRP (RChunked (RData left')) [] tl mt) evs')
-    | RDataEnd _ =>
+    | RDataEnd =>
       if a =? 13 then
         match r with
-        | [] => inr (QNeed (mkRP (RChunked (RDataEnd true)) [] tl mt) evs)
+        | [] => inr (QNeed (mkRP (RChunked RDataEnd) [13] tl mt) evs)
         | b :: rest => if b =? 10 then inl ((RSize, tl, evs), rest)
                        else inr (QFail ETransferEncoding evs)
         end
@@ -51,7 +50,7 @@ Definition rstep_c (lim : limits) (mt : N) (s : rcst) (chunk : bytes) : (rcst * 
       | None => inr (QNeed (mkRP (RChunked RTrailers) chunk tl mt) evs)
       | Some (raw, rest) =>
         let line := rstrip_cr raw in
-        if max_field lim <? lenN line then inr (QFail ELineTooLong evs) else
+        if max_field lim <? len1 raw then inr (QFail ELineTooLong evs) else
         let tl' := tl ++ [line] in
         if mt <? lenN tl' then inr (QFail EBadMessage evs) else
         match line with
@@ -144,7 +143,7 @@ Definition rwfc (c : rcstate) (ct : bytes) : Prop :=
   match c with
   | RSize | RTrailers => find_lf ct = None
   | RData rem => 0 < rem /\ ct = []
-  | RDataEnd _ => ct = []
+  | RDataEnd => ct = [] \/ ct = [13]
   end.
 
 Definition rwfp (p : rpstate) : Prop :=
@@ -157,24 +156,12 @@ Definition rwfp (p : rpstate) : Prop :=
 Lemma rwfc_cwf c ct tl evs : rwfc c ct -> rcwf (c, tl, evs).
 Proof. unfold rwfc, rcwf. cbn [fst]. destruct c; try tauto. Qed.
 
-Lemma rwfc_unpark c ct : rwfc c ct -> rwfc (unpark c) ct.
-Proof. destruct c; cbn [unpark rwfc]; tauto. Qed.
 
 Lemma rstep_c_data lim mt rem tl evs a r d rest : takeN rem (a :: r) = (d, rest) ->
   rstep_c lim mt (RData rem, tl, evs) (a :: r) =
-  if rem - lenN d =? 0 then inl ((RDataEnd false, tl, rev_chunk_end (rev_data d evs)), rest)
+  if rem - lenN d =? 0 then inl ((RDataEnd, tl, rev_chunk_end (rev_data d evs)), rest)
   else inr (QNeed (mkRP (RChunked (RData (rem - lenN d))) [] tl mt) (rev_data d evs)).
 Proof. intros E. cbn [rstep_c]. rewrite E. reflexivity. Qed.
-
-(* ------------------------------------------------------------------ resuming after a read boundary *)
-(* the bytes y that follow a read boundary are read the same way as if there had been no boundary.
-   Only one parked state cares: after an optional CR that followed chunk data (the next read would
-   skip one more CR) y must not start with CR *)
-Definition resume_c (c : rcstate) (y : bytes) : bool :=
-  match c with
-  | RDataEnd true => match y with b :: _ => negb (b =? 13) | [] => false end
-  | _ => true
-  end.
 
 Lemma rcloop_step_eq2 lim mt f f' s1 s2 z1 z2 : rcwf s1 -> rcwf s2 ->
   rstep_c lim mt s1 z1 = rstep_c lim mt s2 z2 ->
@@ -206,38 +193,32 @@ Proof.
   apply (loop_fuel _ _ _ _ rmu_c rcwf (rstep_c_dec lim mt)); [exact W'|lia|lia].
 Qed.
 
-(* a stop asking for more input: the state left behind, and how the run resumes on bytes y that are
-   safe for that state *)
+(* a stop asking for more input: the state left behind, and how the run resumes *)
 Lemma rcstop_need lim mt c tl evs x p' e1 :
   rcwf (c, tl, evs) ->
   rstep_c lim mt (c, tl, evs) x = inr (QNeed p' e1) ->
   exists c' ct' tl', p' = mkRP (RChunked c') ct' tl' mt /\ rwfc c' ct' /\
-    forall y, resume_c c' y = true ->
-     forall f f', (meas rmu_c (c, tl, evs) (x ++ y) < f)%nat ->
-                  (meas rmu_c (unpark c', tl', e1) (ct' ++ y) < f')%nat ->
-      rcloop lim mt f (c, tl, evs) (x ++ y) = rcloop lim mt f' (unpark c', tl', e1) (ct' ++ y).
+    forall y f f', (meas rmu_c (c, tl, evs) (x ++ y) < f)%nat ->
+                   (meas rmu_c (c', tl', e1) (ct' ++ y) < f')%nat ->
+      rcloop lim mt f (c, tl, evs) (x ++ y) = rcloop lim mt f' (c', tl', e1) (ct' ++ y).
 Proof.
   intros Hw H. destruct x as [|a r].
   { cbn [rstep_c] in H. inversion H; subst. exists c, [], tl. split; [reflexivity|]. split.
     - unfold rcwf in Hw. cbn [fst] in Hw. unfold rwfc. destruct c; auto.
-    - intros y Hy f f' H1 H2. cbn [app] in *.
-      destruct c as [| rem | [|] |]; cbn [unpark] in *; try (apply rcloop_fuel; assumption).
-      (* RDataEnd true: the step function does not look at the mark *)
-      destruct y as [|b y']; [discriminate|].
-      apply rcloop_step_eq; try exact I; try assumption. reflexivity. }
+    - intros y f f' H1 H2. apply rcloop_fuel; assumption. }
   destruct c.
   - (* RSize *) cbn [rstep_c] in H.
     destruct (find_lf (a :: r)) as [[raw rest]|] eqn:E.
     { repeat (dmH H; try discriminate). }
     inversion H; subst.
     exists RSize, (a :: r), tl. repeat split; try assumption.
-    intros y _ f f' H1 H2. apply rcloop_fuel; assumption.
+    intros y f f' H1 H2. apply rcloop_fuel; assumption.
   - (* RData *)
     destruct (takeN rem (a :: r)) as [d rest] eqn:E.
     rewrite (rstep_c_data _ _ _ _ _ _ _ _ _ E) in H.
     destruct (rem - lenN d =? 0) eqn:E0; [discriminate|]. inversion H; subst. clear H.
     exists (RData (rem - lenN d)), [], tl. split; [reflexivity|]. split; [split; [lia|reflexivity]|].
-    intros y _ f f' H1 H2. cbn [app unpark] in H2 |- *.
+    intros y f f' H1 H2. cbn [app] in H2 |- *.
     destruct y as [|b y].
     + rewrite app_nil_r in *. destruct f as [|f]; [lia|]. destruct f' as [|f']; [lia|].
       unfold rcloop. cbn [loop].
@@ -256,23 +237,20 @@ Proof.
       * exact I.
       * unfold meas, rmu_c in *. cbn [fst length] in *. rewrite app_length in H1. cbn [length] in *. lia.
       * unfold meas, rmu_c in *. cbn [fst length] in *. lia.
-  - (* RDataEnd: the only stop for more input is after the optional CR *)
+  - (* RDataEnd: the only stop for more input is a CR at the very end, which stays buffered *)
     cbn [rstep_c] in H.
     destruct (a =? 13) eqn:Ea.
     + destruct r as [|b rest]; [|dmH H; discriminate].
       inversion H; subst. apply N.eqb_eq in Ea. subst a.
-      exists (RDataEnd true), [], tl. split; [reflexivity|]. split; [reflexivity|].
-      intros y Hy f f' H1 H2. cbn [app unpark] in *.
-      destruct y as [|b y']; [discriminate|]. cbn [resume_c] in Hy. apply negb_true_iff in Hy.
-      apply rcloop_step_eq2; try exact I; try assumption.
-      cbn [rstep_c]. change (13 =? 13) with true. cbv iota. rewrite Hy. reflexivity.
+      exists RDataEnd, [13], tl. split; [reflexivity|]. split; [right; reflexivity|].
+      intros y f f' H1 H2. apply rcloop_fuel; [exact I|assumption|assumption].
     + dmH H; discriminate.
   - (* RTrailers *) cbn [rstep_c] in H.
     destruct (find_lf (a :: r)) as [[raw rest]|] eqn:E.
     { repeat (dmH H; try discriminate). }
     inversion H; subst.
     exists RTrailers, (a :: r), tl. repeat split; try assumption.
-    intros y _ f f' H1 H2. apply rcloop_fuel; assumption.
+    intros y f f' H1 H2. apply rcloop_fuel; assumption.
 Qed.
 
 Lemma rcstop_done lim mt s x rest e y :
@@ -320,21 +298,20 @@ Qed.
 Lemma rcloop_need_app lim mt f s x p' e1 : rcwf s -> (meas rmu_c s x < f)%nat ->
   rcloop lim mt f s x = QNeed p' e1 ->
   exists c' ct' tl', p' = mkRP (RChunked c') ct' tl' mt /\ rwfc c' ct' /\
-    forall y, resume_c c' y = true ->
-     forall f' f'', (meas rmu_c s (x ++ y) < f')%nat ->
-                    (meas rmu_c (unpark c', tl', e1) (ct' ++ y) < f'')%nat ->
-      rcloop lim mt f' s (x ++ y) = rcloop lim mt f'' (unpark c', tl', e1) (ct' ++ y).
+    forall y f' f'', (meas rmu_c s (x ++ y) < f')%nat ->
+                     (meas rmu_c (c', tl', e1) (ct' ++ y) < f'')%nat ->
+      rcloop lim mt f' s (x ++ y) = rcloop lim mt f'' (c', tl', e1) (ct' ++ y).
 Proof.
   intros Hw Hf H.
   destruct (rcloop_stop lim mt f s x Hw Hf) as (sk & xk & E & Hwk & Hm & Hs). rewrite H in Hs.
   destruct sk as [[ck tlk] evk].
   destruct (rcstop_need _ _ _ _ _ _ _ _ Hwk Hs) as (c' & ct' & tl' & -> & Hwf & Hres).
   exists c', ct', tl'. split; [reflexivity|]. split; [assumption|].
-  intros y Hy f' f'' H1 H2.
+  intros y f' f'' H1 H2.
   unfold rcloop.
   rewrite (loop_app _ _ (rstep_c lim mt) rcdflt rmu_c rcwf (rstep_c_dec lim mt) (rstep_c_stable lim mt)
              f s x y f' (S (meas rmu_c (ck, tlk, evk) (xk ++ y))) Hw Hf H1 _ xk E ltac:(lia)).
-  apply (Hres y Hy (S (meas rmu_c (ck, tlk, evk) (xk ++ y))) f''); [lia|assumption].
+  apply (Hres y (S (meas rmu_c (ck, tlk, evk) (xk ++ y))) f''); [lia|assumption].
 Qed.
 
 Ltac dm_in :=
@@ -362,7 +339,8 @@ Proof.
   - destruct Hw as [_ ->]. cbn [app] in Ex. subst d.
     destruct (takeN rem (a :: r)) as [d0 rest] eqn:E. apply takeN_rest_len in E.
     dm_in; [assumption|exact I].
-  - subst ct. cbn [app] in Ex. subst d. repeat dm_in; try exact I; cbn [length]; lia.
+  - repeat dm_in; try exact I;
+      destruct Hw as [-> | ->]; cbn [app] in Ex; subst d || (inversion Ex; subst d); cbn [length]; lia.
   - destruct (find_lf (a :: r)) as [[raw rest]|] eqn:E; [|exact I].
     rewrite <- Ex in E. apply (find_lf_none_app _ _ _ _ Hw) in E.
     repeat dm_in; try exact I; lia.
@@ -372,7 +350,7 @@ Qed.
 Lemma rfeed_payload_chunked lim p c data evs : rpk p = RChunked c ->
   rfeed_payload lim p data evs =
   if rtoo_long lim p then QFail ELineTooLong evs
-  else rcloop lim (rmax_trailers p) (2 * length (rctail p ++ data) + 2) (unpark c, rtlines p, evs) (rctail p ++ data).
+  else rcloop lim (rmax_trailers p) (2 * length (rctail p ++ data) + 2) (c, rtlines p, evs) (rctail p ++ data).
 Proof. intro H. unfold rfeed_payload. rewrite H. rewrite rchunked_loop_loop. reflexivity. Qed.
 
 Lemma rmeas_c_fuel c tl evs (x : bytes) : (meas rmu_c (c, tl, evs) x < 2 * length x + 2)%nat.
@@ -390,14 +368,13 @@ Proof.
     intro y. rewrite (takeN_app_full _ _ _ _ y E ltac:(lia)), E0. reflexivity.
   - rewrite (rfeed_payload_chunked _ _ _ _ _ Ek) in H.
     destruct (rtoo_long lim p) eqn:Et; [discriminate|].
-    apply rwfc_unpark in Hw.
     pose proof (rwfc_cwf _ _ (rtlines p) evs Hw) as Hc.
-    pose proof (rmeas_c_fuel (unpark c) (rtlines p) evs (rctail p ++ x)) as Hf.
+    pose proof (rmeas_c_fuel c (rtlines p) evs (rctail p ++ x)) as Hf.
     split.
     + replace (2 * length (rctail p ++ x) + 2)%nat with (S (2 * length (rctail p ++ x) + 1)) in H by lia.
       unfold rcloop in H. cbn [loop] in H.
-      pose proof (rstep_c_first lim (rmax_trailers p) (unpark c) (rtlines p) evs (rctail p) x Hw) as H1.
-      destruct (rstep_c lim (rmax_trailers p) (unpark c, rtlines p, evs) (rctail p ++ x)) as [[s' x']|r] eqn:Es.
+      pose proof (rstep_c_first lim (rmax_trailers p) c (rtlines p) evs (rctail p) x Hw) as H1.
+      destruct (rstep_c lim (rmax_trailers p) (c, rtlines p, evs) (rctail p ++ x)) as [[s' x']|r] eqn:Es.
       * destruct (rstep_c_dec _ _ _ _ _ _ Hc Es) as [Hc' Hm].
         destruct (rcloop_done_app lim (rmax_trailers p) (2 * length (rctail p ++ x) + 1) (2 * length (x' ++ []) + 2) s' x' [] rest e Hc'
                     ltac:(lia) ltac:(unfold meas, rmu_c in *; destruct (fst (fst s')); lia) H) as [_ HL].
@@ -405,36 +382,50 @@ Proof.
       * subst r. assumption.
     + intro y. rewrite (rfeed_payload_chunked _ _ _ _ _ Ek), Et.
       rewrite app_assoc.
-      pose proof (rmeas_c_fuel (unpark c) (rtlines p) evs ((rctail p ++ x) ++ y)) as Hf'.
+      pose proof (rmeas_c_fuel c (rtlines p) evs ((rctail p ++ x) ++ y)) as Hf'.
       destruct (rcloop_done_app lim (rmax_trailers p) _ _ _ _ y rest e Hc Hf Hf' H) as [-> _]. reflexivity.
   - unfold rfeed_payload in H. rewrite Ek in H. discriminate.
 Qed.
 
-(* the parser state does not sit at the place where the lax CR skipping depends on the read boundary *)
-Definition rclean (p : rpstate) : bool :=
-  match rpk p with
-  | RChunked (RDataEnd true) => false
-  | _ => true
-  end.
-
-(* ... or it does, and the bytes that follow are read the same way *)
-Definition rresume_ok (p : rpstate) (y : bytes) : bool :=
-  match rpk p with RChunked c => resume_c c y | _ => true end.
-
-Lemma rclean_resume p y : rclean p = true -> rresume_ok p y = true.
-Proof. unfold rclean, rresume_ok. destruct (rpk p) as [|c|]; try reflexivity. destruct c as [| | [|] |]; try discriminate; reflexivity. Qed.
+(* the re-check is monotone: a buffered partial line that is too long stays too long when its line
+   is completed (the complete line is measured the same way), so the one-read run fails as well *)
+Lemma rstep_c_too_long lim mt c' ct' tl' e1 y : rwfc c' ct' ->
+  rtoo_long lim (mkRP (RChunked c') ct' tl' mt) = true -> has_byte 10 y = true ->
+  rstep_c lim mt (c', tl', e1) (ct' ++ y) = inr (QFail ELineTooLong e1).
+Proof.
+  intros Hw Ht Hy. unfold rtoo_long in Ht. cbn [rpk rctail] in Ht.
+  destruct ct' as [|t0 t]; [discriminate|].
+  assert (Hlf : exists raw rest, find_lf ((t0 :: t) ++ y) = Some (raw, rest)).
+  { destruct (find_lf ((t0 :: t) ++ y)) as [[raw rest]|] eqn:E; [eauto|].
+    apply find_lf_none_has in E. rewrite has_byte_app, Hy, orb_true_r in E. discriminate. }
+  destruct Hlf as (raw & rest & Hlf).
+  destruct c' as [| rem | |]; cbn [rwfc] in Hw.
+  - (* RSize: the raw line is at least as long as the buffered part *)
+    destruct (find_lf_none_app_prefix _ _ _ _ Hw Hlf) as [pre ->].
+    change ((t0 :: t) ++ y) with (t0 :: (t ++ y)) in *. cbn [rstep_c]. rewrite Hlf.
+    assert (E : max_line lim <? lenN ((t0 :: t) ++ pre) = true) by (rewrite lenN_app; lia).
+    rewrite E. reflexivity.
+  - discriminate.
+  - (* RDataEnd: a lone buffered CR is measured as nothing *)
+    exfalso. destruct Hw as [Hw|Hw]; [discriminate|]. inversion Hw; subst. unfold len1, lenN in Ht. cbn in Ht. lia.
+  - destruct (find_lf_none_app_prefix _ _ _ _ Hw Hlf) as [pre ->].
+    change ((t0 :: t) ++ y) with (t0 :: (t ++ y)) in *. cbn [rstep_c]. rewrite Hlf.
+    pose proof (len1_app_ge (t0 :: t) pre).
+    assert (E : max_field lim <? len1 ((t0 :: t) ++ pre) = true) by lia.
+    rewrite E. reflexivity.
+Qed.
 
 Lemma rfeed_payload_need lim p x evs p' e1 : rwfp p ->
   rfeed_payload lim p x evs = QNeed p' e1 ->
   rwfp p' /\ rmax_trailers p' = rmax_trailers p /\
-  (rtoo_long lim p' = false ->
-   forall y, rresume_ok p' y = true -> rfeed_payload lim p (x ++ y) evs = rfeed_payload lim p' y e1).
+  (forall y, rtoo_long lim p' = false \/ has_byte 10 y = true ->
+   rfeed_payload lim p (x ++ y) evs = rfeed_payload lim p' y e1).
 Proof.
   intros Hw H. unfold rwfp in Hw. destruct (rpk p) as [rem|c|] eqn:Ek.
   - unfold rfeed_payload in H. rewrite Ek in H.
     destruct (takeN rem x) as [d r] eqn:E. destruct (rem - lenN d =? 0) eqn:E0; [discriminate|].
     inversion H; subst. clear H. split; [unfold rwfp; cbn; repeat split; lia|]. split; [reflexivity|].
-    intros _ y _. unfold rfeed_payload. rewrite Ek. cbn [rpk rmax_trailers].
+    intros y _. unfold rfeed_payload. rewrite Ek. cbn [rpk rmax_trailers].
     destruct (takeN (rem - lenN x) y) as [d2 r2] eqn:E2.
     destruct (takeN_app_short _ _ _ _ _ _ _ E ltac:(lia) E2) as (-> & -> & ->). rewrite E2.
     rewrite rev_data_app.
@@ -442,17 +433,20 @@ Proof.
     reflexivity.
   - rewrite (rfeed_payload_chunked _ _ _ _ _ Ek) in H.
     destruct (rtoo_long lim p) eqn:Et; [discriminate|].
-    apply rwfc_unpark in Hw.
     pose proof (rwfc_cwf _ _ (rtlines p) evs Hw) as Hc.
-    pose proof (rmeas_c_fuel (unpark c) (rtlines p) evs (rctail p ++ x)) as Hf.
+    pose proof (rmeas_c_fuel c (rtlines p) evs (rctail p ++ x)) as Hf.
     destruct (rcloop_need_app _ _ _ _ _ _ _ Hc Hf H) as (c' & ct' & tl' & -> & Hwf & Hres).
     split; [exact Hwf|]. split; [reflexivity|].
-    intros Ht y Hy. rewrite (rfeed_payload_chunked _ _ _ _ _ Ek), Et.
-    rewrite (rfeed_payload_chunked lim (mkRP (RChunked c') ct' tl' (rmax_trailers p)) c' y e1 eq_refl), Ht. cbn [rctail rtlines rmax_trailers].
-    rewrite app_assoc. apply (Hres y Hy); apply rmeas_c_fuel.
+    intros y Hty. rewrite (rfeed_payload_chunked _ _ _ _ _ Ek), Et.
+    rewrite (rfeed_payload_chunked lim (mkRP (RChunked c') ct' tl' (rmax_trailers p)) c' y e1 eq_refl). cbn [rctail rtlines rmax_trailers].
+    rewrite app_assoc. rewrite (Hres y _ (2 * length (ct' ++ y) + 2)%nat); [|apply rmeas_c_fuel|apply rmeas_c_fuel].
+    destruct (rtoo_long lim (mkRP (RChunked c') ct' tl' (rmax_trailers p))) eqn:Et'; [|reflexivity].
+    destruct Hty as [Hty|Hty]; [discriminate|].
+    replace (2 * length (ct' ++ y) + 2)%nat with (S (2 * length (ct' ++ y) + 1)) by lia.
+    unfold rcloop. cbn [loop]. rewrite (rstep_c_too_long _ _ _ _ _ _ _ Hwf Et' Hty). reflexivity.
   - unfold rfeed_payload in H. rewrite Ek in H. inversion H; subst. clear H.
     split; [unfold rwfp; rewrite Ek; assumption|]. split; [reflexivity|].
-    intros _ y _. unfold rfeed_payload. rewrite Ek. rewrite rev_data_app. reflexivity.
+    intros y _. unfold rfeed_payload. rewrite Ek. rewrite rev_data_app. reflexivity.
 Qed.
 
 Lemma rfeed_payload_too_long lim p d evs : rtoo_long lim p = true ->
